@@ -166,7 +166,7 @@ class Generator:
             j = i + 1
             while j < len(lines):
                 sj = lines[j].strip()
-                if re.match(r"^//@(\||loop\s|rewrite|rewriteall|before|afterstmt|after|sig\s|from\s|to\s|until\s)", sj):
+                if re.match(r"^//@(\||loop\s|rewrite|rewriteall|before|afterstmt|after|sig\s|from\s|fromafter\s|to\s|until\s)", sj):
                     cont.append(self._subst_lit(sj))
                     j += 1
                 else:
@@ -203,6 +203,7 @@ class Generator:
         sf = self.source(rel)
         text = sf.src[sf.toks[it.body_open].start:sf.toks[it.body_close].end]
         sig = frm = to = None
+        fromafter = False   # `//@fromafter <<<a>>>`: the region starts just AFTER the anchor
         until = False   # `//@until <<<a>>>`: the region ends just BEFORE the anchor; `//@from <<<^>>>`: starts at the body's first statement
         spec, edits = "", []
         for c in cont:
@@ -210,6 +211,8 @@ class Generator:
             if m: sig = m.group(1); continue
             m = re.match(r"^//@from\s*<<<(.*)>>>\s*$", c)
             if m: frm = m.group(1); continue
+            m = re.match(r"^//@fromafter\s*<<<(.*)>>>\s*$", c)
+            if m: frm = m.group(1); fromafter = True; continue
             m = re.match(r"^//@to\s*<<<(.*)>>>\s*$", c)
             if m: to = m.group(1); continue
             m = re.match(r"^//@until\s*<<<(.*)>>>\s*$", c)
@@ -223,7 +226,7 @@ class Generator:
         mt = list(self._ws_regex(to).finditer(text))
         if len(mf) != 1 or len(mt) != 1 or mt[0].end() <= mf[0].start():
             raise AnchorLost("region anchors not found exactly once in %s (from:%d to:%d)" % (path, len(mf), len(mt)))
-        body = text[(mf[0].end() if frm == "^" else mf[0].start()):(mt[0].start() if until else mt[0].end())]
+        body = text[(mf[0].end() if (frm == "^" or fromafter) else mf[0].start()):(mt[0].start() if until else mt[0].end())]
         rules = ["E1' region of %s between `%s` and `%s` wrapped as `%s` (substitution-based extraction)" % (path, frm[:50], to[:50], sig[:80])]
         for c in edits:
             if c.startswith("//@rewrite"):
